@@ -10,7 +10,7 @@ META = {
 }
 MANIFEST_ENTRY = {
     "level_text": 'Deductive proof of the recurrence, the resets and the flow accounting for all inputs; flow-neutrality and scale-invariance as lemmas over the proved recurrence.',
-    "level_note": "Reals not floats; Backtest.run's call order (setup; adjust(initial capital); update(dates[0]); ...) is read from source but not yet under contract; scale invariance through SecurityBase.allocate's isclose exit (absolute 1e-8) is not homogeneous and not claimed.",
+    "level_note": "Reals not floats; Backtest.run's opening call order (setup; adjust(initial capital) as a flow; update(dates[0])) is proved on its body; scale invariance through SecurityBase.allocate's isclose exit (absolute 1e-8) is not homogeneous and not claimed.",
     "technique": "contract-based deductive verification: VCs from the real AST (pyvc) discharged by z3/cvc5; loop invariants with ghost sums; lemmas over contract clauses",
 }
 
